@@ -18,7 +18,7 @@ def relerr(got, ref):
 
 
 def check(ck):
-    zoo = wfzoo.obc_wfs(ck.rng, which="all") + wfzoo.pbc_wfs(ck.rng, which="all")
+    zoo = wfzoo.obc_wfs(ck.rng, which="all") + wfzoo.pbc_wfs(ck.rng, which="all+gps")
     worst = {}
     import os
     only = os.environ.get("VERIF_ONLY_WF")
